@@ -91,6 +91,7 @@ impl<L: Language, N: Analysis<L>> EGraph<L, N> {
             final_cap = &final_cap - &grp.orbit(d);
         }
 
+        let old_slots = c.slots.clone();
         c.slots = cap.clone();
         let generators = c.group.generators();
         let _ = c;
@@ -121,6 +122,12 @@ impl<L: Language, N: Analysis<L>> EGraph<L, N> {
             out
         };
 
+        // A generator that moves a slot of `cap` out of `cap` cannot be restricted to `cap`.
+        // Such generators witness that further slots are redundant (the orbit of a redundant slot is redundant);
+        // they are re-asserted below as plain equations, after the class was shrunk to `cap`.
+        let (generators, crossing): (Vec<ProvenPerm>, Vec<ProvenPerm>) = generators
+            .into_iter()
+            .partition(|p| p.elem.iter().all(|(x, y)| cap.contains(&x) == cap.contains(&y)));
         let generators = generators.into_iter().map(restrict_proven).collect();
         let identity = ProvenPerm::identity(id, &cap, syn_slots, self.proof_registry.clone());
         if CHECKS {
@@ -130,6 +137,13 @@ impl<L: Language, N: Analysis<L>> EGraph<L, N> {
         c.group = Group::new(&identity, generators);
 
         self.touched_class(from.id, PendingType::Full);
+
+        for p in crossing {
+            let l = AppliedId::new(id, SlotMap::identity(&old_slots));
+            let r = AppliedId::new(id, p.elem.clone());
+            let prf = ghost!(p.proof.clone());
+            self.union_internal(&l, &r, prf);
+        }
     }
 
     pub(crate) fn rebuild(&mut self) {
